@@ -9,9 +9,9 @@ answer (`observe`).  The theorems quantify over every table state (no invariant 
 row list, predicate and assignment function, hence over every position at which a row fails.
 
 Full on the fragment where every write happens after the last fallible phase (plain and REPLACE
-INSERT, UPDATE, DELETE, TRUNCATE, ALTER TABLE ADD CONSTRAINT); false as coded for the two
-row-by-row loops without statement-level undo (bulk INSERT … SELECT transfer, ON DUPLICATE KEY
-UPDATE) — counterexamples below — and for statements with triggers (Props/C34.lean,
+INSERT, UPDATE, DELETE, TRUNCATE, ALTER TABLE ADD CONSTRAINT); false as coded for the row-by-row
+loop of ON DUPLICATE KEY UPDATE (no statement-level undo; counterexample below; the bulk INSERT … SELECT
+transfer had the same defect and was repaired) and for statements with triggers (Props/C34.lean,
 `C34_fail_*_counterexample`), which are replayed on the real code by the C11 harness.
 -/
 namespace VibeProof.C11
@@ -25,7 +25,6 @@ def C11_full : Prop :=
 
 /-- statements whose executor validates everything before it writes anything -/
 def ValidateThenWrite : Stmt → Prop
-  | .bulk _ => False
   | .insert _ (.onDup _) => False
   | _ => True
 
@@ -50,7 +49,13 @@ theorem C11_failed_statement_unchanged_partial (n : Nat) (t : Table) (s : Stmt) 
         · rfl
         · rename_i h1 _ hv; simp [h1, hv] at h
     | onDup f => exact absurd hs (by simp [ValidateThenWrite])
-  | bulk rows => exact absurd hs (by simp [ValidateThenWrite])
+  | bulk rows =>
+    simp only [step, Table.bulkStmt] at h ⊢
+    split
+    · rfl
+    · split
+      · rfl
+      · simp_all
   | update sel f =>
     simp only [step, Table.updateStmt] at h ⊢
     split
@@ -137,17 +142,19 @@ example : ValidateThenWrite (.insert [[.int 3, .int 1], [.int 2, .int 5]] .plain
 
 /-! counterexamples: the full statement is false of the code as it is -/
 
-/-- bulk INSERT … SELECT transfer: the second source row fails, the first one stays -/
-theorem C11_bulk_counterexample : ¬ C11_full := by
+/-- ON DUPLICATE KEY UPDATE: the second row's update is rejected, the first row stays inserted -/
+theorem C11_on_duplicate_key_counterexample : ¬ C11_full := by
   intro h
-  have := h demo (.bulk [[.int 3, .int 1], [.int 2, .int 5]]) .constraint (by decide)
+  have := h demo (.insert [[.int 3, .int 1], [.int 2, .int 5]] (.onDup (fun old _ => .ok (old.set 0 (.int 1)))))
+    .constraint (by decide)
   revert this
   decide
 
-/-- ON DUPLICATE KEY UPDATE: the second row's update is rejected, the first row stays inserted -/
-theorem C11_on_duplicate_key_counterexample :
-    ∃ (t : Table) (s : Stmt) (e : DErr), (step thr t s).2 = .err e ∧ (step thr t s).1.rows ≠ t.rows :=
-  ⟨demo, .insert [[.int 3, .int 1], [.int 2, .int 5]] (.onDup (fun old _ => .ok (old.set 0 (.int 1)))),
-    .constraint, by decide, by decide⟩
+/-- the bulk INSERT … SELECT transfer *before* the repair (row-by-row `bulkLoop`): the second
+source row fails, the first one stays — repaired by validating all rows first (`bulkStmt`) -/
+theorem C11_bulk_pre_repair_counterexample :
+    (Table.bulkLoop thr false demo [] [[.int 3, .int 1], [.int 2, .int 5]] 0).2 = .err .constraint ∧
+    (Table.bulkLoop thr false demo [] [[.int 3, .int 1], [.int 2, .int 5]] 0).1.rows ≠ demo.rows := by
+  decide
 
 end VibeProof.C11
